@@ -79,6 +79,8 @@ func c03setups(dir string) []c03setup {
 			"logger.lg.appenderRef[0].ref": "c", "logger.lg.appenderRef[1].ref": "f"}), sinks: []string{"console", "file:" + f("ll.log")}},
 		{name: "sync-multi-console-text+file-json", cfg: base(map[string]string{"appender.c.type": "Console", "appender.f.type": "File", "appender.f.fileDir": dir, "appender.f.fileName": "mj.log", "appender.f.layout.type": "JSONLayout", "logger.lg.type": "Logger",
 			"logger.lg.appenderRef[0].ref": "c", "logger.lg.appenderRef[1].ref": "f"}), sinks: []string{"console", "file:" + f("mj.log")}},
+		{name: "sync-discard+console-json+discard", cfg: base(map[string]string{"appender.d1.type": "Discard", "appender.d2.type": "Discard", "appender.c.type": "Console", "appender.c.layout.type": "JSONLayout", "logger.lg.type": "Logger",
+			"logger.lg.appenderRef[0].ref": "d1", "logger.lg.appenderRef[1].ref": "c", "logger.lg.appenderRef[2].ref": "d2"}), sinks: []string{"console"}},
 		{name: "console-logger", cfg: base(map[string]string{"appender.u.type": "Discard", "logger.lg.type": "Console", "logger.lg.layout.type": "JSONLayout"}), sinks: []string{"console"}},
 		{name: "file-logger", cfg: base(map[string]string{"appender.u.type": "Discard", "logger.lg.type": "File", "logger.lg.fileDir": dir, "logger.lg.fileName": "fl.log"}), sinks: []string{"file:" + f("fl.log")}},
 		{name: "rolling-logger-separate", cfg: base(map[string]string{"appender.u.type": "Discard", "logger.lg.type": "RollingFile", "logger.lg.fileDir": dir, "logger.lg.fileName": "rl.log", "logger.lg.rotation": "h", "logger.lg.separate": "true"}), sinks: []string{"rolldir:" + dir + ":rl.log"}},
@@ -298,14 +300,14 @@ func c03Worker(w *W) {
 func init() {
 	register(&Prop{
 		ID: "C03", Level: "exploration", MinDistinct: 20, Worker: c03Worker,
-		Rule: "workloads: 11 synchronous paths (built-in console logger before Refresh; Refresh-built Logger -> Console/File/RollingFile appenders with Text/JSON layouts; logger-level layout fanning out to console+file; two appenders with different layouts; Console/File/RollingFile logger kinds) x bufferCap {10KB, 1KB, 8KB} x G in {4,8,16,64} goroutines (race build: G<=16); " +
+		Rule: "workloads: 12 synchronous paths (a Discard appender referenced before and after a console appender; built-in console logger before Refresh; Refresh-built Logger -> Console/File/RollingFile appenders with Text/JSON layouts; logger-level layout fanning out to console+file; two appenders with different layouts; Console/File/RollingFile logger kinds) x bufferCap {10KB, 1KB, 8KB} x G in {4,8,16,64} goroutines (race build: G<=16); " +
 			"line sizes: 55% 10-200 B, 30% a dense sweep of 300 consecutive payload lengths across the buffer cap (so that lines of exactly cap bytes occur), 10% around cap, 5% beyond 2x cap; per-event deterministic timestamps spread over many seconds; the console sink consumes each chunk piecewise with yields. " +
 			"Oracle: each event is first logged alone (sequential phase), then all events are logged concurrently; every chunk (console) / line (files) of the concurrent phase must be byte-identical to the same event's line from the sequential phase, exactly once per event and sink. The race build runs the same workload under the Go race detector; every report with a library frame is a violation. " +
 			"Non-trivial/distinct = distinct (path, bufferCap, G, build flavour) workloads that matched completely.",
 		Assumptions: []string{"file sinks are read at quiescent points (no writer active)", "interleavings are whatever the scheduler produced on 16 cores (observed overlap is reported as max_inflight_console_writes), not enumerated"},
 		Run: func(d *D) {
 			var specs []Spec
-			ns := 11
+			ns := 12
 			i := 0
 			add := func(fl string, setup int, capN string, g int, m int64) {
 				s := d.NewSpec("conc", fmt.Sprintf("%s-s%d-%s-g%d", fl, setup, capN, g), i, 1000)
